@@ -76,6 +76,94 @@ theorem parse_fuel_sufficient (e : Expr) (hw : wf e = true) (hh : height e ≤ X
 example : (orExpr (fuelFor (rtoks sample).length) 0 (rtoks sample)).isSome = true :=
   parse_fuel_sufficient sample (by decide) (by decide)
 
+/-! ## REC §2.5 abbreviated syntax: every abbreviated token sequence is parsed exactly like its expansion
+
+Stated on the token level for EVERY continuation of the token list (not only canonical ones); the fuel offsets are the extra
+calls the longer form needs.  `selfNode` / `parentNode` / `dosNode` are the tokens of `self::node()`, `parent::node()`,
+`descendant-or-self::node()`. -/
+
+def stepToks (ax : Axis) : List PT := [(.axisname, axisBytes ax), tDcolon, (.nodetype, [0x6e, 0x6f, 0x64, 0x65]), tPar1, tPar2]
+
+/-- `.` is `self::node()` and `..` is `parent::node()` (REC §2.5), wherever no predicate follows (the grammar allows none
+after `.` / `..`) -/
+theorem abbrev_dot_ddot (f d : Nat) (tx : Bytes) (rest : List PT) (h : LemmasParse.NoBrack rest) :
+    step (f + 3) d ((.dot, tx) :: rest) = step (f + 3) d (stepToks .self ++ rest) ∧
+    step (f + 3) d ((.ddot, tx) :: rest) = step (f + 3) d (stepToks .parent ++ rest) := by
+  have hp := LemmasParse.preds_stop h f d
+  constructor <;>
+    simp [step, stepToks, tDcolon, tPar1, tPar2, LemmasTok.axisOf_axisBytes, nodeTest, hp, nodeTypeOf]
+
+/-- `@` is `attribute::` (REC §2.5), in front of anything -/
+theorem abbrev_at (f d : Nat) (tx : Bytes) (ts : List PT) :
+    step (f + 1) d ((.at, tx) :: ts) = step (f + 1) d ((.axisname, axisBytes .attribute) :: tDcolon :: ts) := by
+  simp [step, tDcolon, LemmasTok.axisOf_axisBytes]
+
+/-- a node test without an axis is on the `child::` axis (REC §2.5) -/
+theorem abbrev_child (f d : Nat) (tx : Bytes) (ts : List PT) :
+    step (f + 1) d ((.nametest, tx) :: ts) = step (f + 1) d ((.axisname, axisBytes .child) :: tDcolon :: (.nametest, tx) :: ts) ∧
+    step (f + 1) d ((.nodetype, tx) :: ts) = step (f + 1) d ((.axisname, axisBytes .child) :: tDcolon :: (.nodetype, tx) :: ts) := by
+  constructor <;> simp [step, tDcolon, LemmasTok.axisOf_axisBytes]
+
+/-- one step `descendant-or-self::node()` followed by `/`: what `reparse_relative_location_path` makes of it -/
+theorem relPath_dos (f d : Nat) (ts : List PT) :
+    relPath (f + 4) d (stepToks .descendantOrSelf ++ tSlash :: ts) =
+      match relPath (f + 3) d ts with
+      | none => none
+      | some (ss, p2, r3) => some (dosStep :: ss, [] ++ p2, r3) := by
+  have hn : LemmasParse.NoBrack (tSlash :: ts) := by
+    intro t r e; simp only [List.cons.injEq] at e; rw [← e.1]; simp [tSlash]
+  have hp := LemmasParse.preds_stop hn f d
+  simp only [tSlash] at hp
+  rw [relPath]
+  simp only [stepToks, List.cons_append, List.nil_append, step, tDcolon, tPar1, tPar2, tSlash, LemmasTok.axisOf_axisBytes, nodeTest,
+    hp, nodeTypeOf]
+  cases relPath (f + 3) d ts with
+  | none => rfl
+  | some r => obtain ⟨a, b, c⟩ := r; simp [dosStep]
+
+/-- `//` at the start of a path is `/descendant-or-self::node()/` (REC §2.5), in front of anything -/
+theorem abbrev_dslash_abs (f d : Nat) (tx : Bytes) (ts : List PT) :
+    (pathExpr (f + 4) d ((.operRpath, tx) :: ts)).map (fun r => (r.1, r.2.2)) =
+      (pathExpr (f + 5) d (tSlash :: (stepToks .descendantOrSelf ++ tSlash :: ts))).map (fun r => (r.1, r.2.2)) := by
+  have e : pathExpr (f + 5) d (tSlash :: (stepToks .descendantOrSelf ++ tSlash :: ts)) =
+      match relPath (f + 4) d (stepToks .descendantOrSelf ++ tSlash :: ts) with
+      | none => none
+      | some (steps, p, r1) => some (.path .root steps, p, r1) := by
+    simp only [pathExpr, tSlash, stepToks, List.cons_append, List.nil_append, isStepStart]
+    rfl
+  rw [e, relPath_dos]
+  simp only [pathExpr]
+  cases relPath (f + 3) d ts with
+  | none => rfl
+  | some r => obtain ⟨a, b, c⟩ := r; simp
+
+/-- `//` inside a path is `/descendant-or-self::node()/` (REC §2.5): after any step, in front of anything -/
+theorem abbrev_dslash_rel (f d : Nat) (tx : Bytes) (s : Step) (p : List Push) (X ts : List PT)
+    (h1 : step (f + 4) d (X ++ (.operRpath, tx) :: ts) = some (s, p, (.operRpath, tx) :: ts))
+    (h2 : step (f + 5) d (X ++ tSlash :: (stepToks .descendantOrSelf ++ tSlash :: ts)) =
+      some (s, p, tSlash :: (stepToks .descendantOrSelf ++ tSlash :: ts))) :
+    (relPath (f + 5) d (X ++ (.operRpath, tx) :: ts)).map (fun r => (r.1, r.2.2)) =
+      (relPath (f + 6) d (X ++ tSlash :: (stepToks .descendantOrSelf ++ tSlash :: ts))).map (fun r => (r.1, r.2.2)) := by
+  rw [relPath, h1, relPath, h2]
+  simp only [tSlash]
+  have := relPath_dos (f + 1) d ts
+  simp only [tSlash] at this
+  rw [this]
+  cases relPath (f + 4) d ts with
+  | none => rfl
+  | some r => obtain ⟨a, b, c⟩ := r; simp
+
+/-- redundant parentheses: `( e )` in place of a primary expression denotes `e` — the parser returns the tree of the inner
+expression, for every token list that `reparse_or_expr` accepts up to a closing parenthesis -/
+theorem redundant_parens (f d : Nat) (body rest : List PT) (e : Expr) (p : List Push)
+    (h : orExpr (f + 2) d (body ++ tPar2 :: rest) = some (e, p, tPar2 :: rest)) (hF : LemmasParse.Follow 10 rest) :
+    pathExpr (f + 3) d (par body ++ rest) = some (e, p ++ [], rest) := by
+  rw [LemmasParse.par_append]
+  simp only [pathExpr, tPar1]
+  rw [h]
+  simp only [tPar2]
+  exact LemmasParse.postP_stop hF _ _ _ _
+
 /-! ## REC §3.7: `*` and operator names -/
 
 /-- REC §3.7, first rule, for every state of the tokenizer loop: if the input at `parsed` is `*`, it is the multiply operator
@@ -171,10 +259,12 @@ theorem lex_total (s : Bytes) :
     | .at p, _ => exact Or.inr ⟨p, rfl⟩
     | .fuel, h => exact absurd h this
 
-/-- the tokens are non-overlapping substrings of the input, in order: read from the last token backwards (`Lex.Chain`), every
-token's text is the slice of the input at its `tok_pos` of length `tok_len`, and every token ends at or before the offset
-of the next one -/
-theorem lex_tokens_in_order (s : Bytes) (ts : List Tok) (h : lex s = .ok ts) : ∃ bound, Chain s bound ts.reverse :=
+/-- the tokens are non-overlapping substrings of the input, in order, and they cover it except for white space: read from
+the last token backwards (`Lex.Chain`), every token's text is the slice of the input at its `tok_pos` of length `tok_len`,
+every token ends at or before the offset of the next one, and every byte between two tokens, before the first and after the
+last token (`bound ≥ length`) is white space or the `$` in front of a variable name (`Lex.GapOK`) -/
+theorem lex_tokens_in_order (s : Bytes) (ts : List Tok) (h : lex s = .ok ts) :
+    ∃ bound, s.length ≤ bound ∧ Chain s bound ts.reverse :=
   lex_tokens_slices s ts h
 
 example : ∃ ts, lex [0x61, 0x20, 0x2f, 0x2f, 0x62] = .ok ts ∧ ts.map (fun t => (t.pos, t.len)) = [(0, 1), (2, 2), (4, 1)] :=
